@@ -101,6 +101,9 @@ func checkC17(env *kernel.Env) {
 	committed := c17State{}
 	for _, t := range tables {
 		committed[t.name] = map[int64]c17Row{}
+		setup.MustExec("CREATE VIEW v" + t.name + " AS SELECT id, v FROM " + t.name)
+		setup.MustExec("CREATE PROCEDURE pr" + t.name + "() SELECT COUNT(*) FROM " + t.name)
+		setup.MustExec("CREATE PROCEDURE pi" + t.name + "(pid INT, pv INT) INSERT INTO " + t.name + " VALUES (pid, pv)")
 	}
 	nextVal := int64(100)
 	vals := map[int64]*c17Val{}
@@ -154,7 +157,23 @@ func checkC17(env *kernel.Env) {
 		x.inTxn, x.readOnly, x.view, x.wrote, x.explicit = false, false, nil, nil, false
 	}
 	checkRead := func(x *c17Sess, t c17Table) {
-		r := x.s.Exec("SELECT id, v FROM " + t.name + " ORDER BY id, v")
+		// a read may go through a view or follow a CALL of a reading procedure:
+		// neither may change what the transaction holds
+		src := t.name
+		if T.Bool(1, 3) {
+			src = "v" + t.name
+			env.Probe("read-through-view")
+		}
+		if T.Bool(1, 4) {
+			c := x.s.Exec("CALL pr" + t.name + "()")
+			env.Probe("call-before-read")
+			env.Logf("  s%d CALL pr%s() -> %s", x.idx+1, t.name, ErrClass(c.Err))
+			if c.Err != nil {
+				env.Fail("read-succeeds", "call-error", "s%d: CALL pr%s() failed: %v", x.idx+1, t.name, c.Err)
+				return
+			}
+		}
+		r := x.s.Exec("SELECT id, v FROM " + src + " ORDER BY id, v")
 		if r.Err != nil {
 			env.Fail("read-succeeds", "read-error", "s%d: SELECT on %s failed: %v", x.idx+1, t.name, r.Err)
 			return
@@ -269,6 +288,11 @@ func checkC17(env *kernel.Env) {
 			v := nextVal
 			vals[v] = &c17Val{writer: x.idx}
 			q := fmt.Sprintf("INSERT INTO %s VALUES (%d, %d)", t.name, id, v)
+			if T.Bool(1, 4) {
+				// the insert is done by a stored procedure
+				q = fmt.Sprintf("CALL pi%s(%d, %d)", t.name, id, v)
+				env.Probe("insert-through-call")
+			}
 			r := x.s.Exec(q)
 			env.Logf("%s %s -> %s", who, q, ErrClass(r.Err))
 			_, exists := view[t.name][id]
